@@ -10,7 +10,7 @@ CLAIM = {
           'table), identity, roundtrip, transitive (+ osdd_* / lis_* table instances), convert_spec (the coded two-branch formula is the '
           'affine map through the base unit), dimension_checked, convert_ok_iff (a number exactly when the dimensions agree), '
           'unknown_unit_refused, category_mismatch_refused, lis_convert_ok_iff, lis_refusal_is_units_error, convertArray_eq_map, '
-          'convertArrayInplace_eq_map, convertArrayInplace_eq_convertArray (every number type), EngVal entry points. '
+          'convertArrayInplace_eq_map (both with the refusal), array_elementwise, array_dimension_checked, convertArrayInplace_eq_convertArray (every number type), EngVal entry points. '
           'PARTIAL: "to within floating-point rounding" is not a theorem (IEEE rounding of Float is opaque to the Lean kernel); it is '
           'exercised on every run - every ordered pair of every dimension/category at several magnitudes, round trips, triples, array '
           'forms - against exact fractions.Fraction results with a running error bound derived on paper (stated in the evidence).'),
@@ -24,7 +24,7 @@ CLAIM = {
 }
 RULE = ('OSDD: every ordered pair of units of one dimension (102 825 pairs incl. a = a) x 7 (quick) / 29 (thorough) finite values of '
         'magnitudes 1e-12..1e15 with random mantissa and sign: scalar convert, convert_function, convert_array, convert_array_inplace, '
-        'round trip; sampled triples per dimension; refusals: one random pair for every ordered pair of dimensions + random cross pairs '
+        'round trip; sampled triples per dimension; refusals (all four entry points, in-place array must stay untouched): one random pair for every ordered pair of dimensions + random cross pairs '
         '(quick) / every ordered cross-dimension pair (thorough). LIS: every ordered pair and every triple of every category, every '
         'ordered pair of different categories, unknown names (fixed list + random 3-5 byte names, str instead of bytes); EngVal '
         'getInUnits/convert/newEngValInUnits/arithmetic on all same-category pairs + sampled refusals. A case is non-trivial when the '
@@ -33,10 +33,13 @@ ASSUMPTIONS = ['binary64 arithmetic of CPython/numpy follows IEEE 754 round-to-n
                'float64 numpy arrays (the in-place form cannot hold the result in an integer array; float32 rounds the table constants too)',
                'the OSDD table is the static snapshot read by read_osdd_static_data(); the live HTTP table of _slb_units() is never fetched',
                'LIS/core/Units.py is imported with assert statements enabled (they check the uniqueness the model also proves for the generated table)',
-               'the refusal clause applies to the checked entry points (convert, convert_function, LIS convert, EngVal); convert_array* have no check (DESIGN section 6)']
+               'refusal is demanded of every entry point: convert, convert_function, convert_array, convert_array_inplace (array left untouched), LIS convert, EngVal']
 TRUSTED = ['modelled, not verified: numpy broadcasting of a scalar over a float64 array = List.map; Python dict lookup = first match in a list with unique keys',
            'generated, compared on every run: lean/TD/TD/Gen/C17Osdd.lean and C17Lis.lean (exact rationals of the table doubles) vs the Unit / UnitConvert objects of the imported modules',
            'paper derivation of the running error bound used by the rounding oracle (text in coverage.rounding_bound)']
+
+ANCHOR_FILES = ['src/TotalDepth/common/units.py', 'src/TotalDepth/common/data/osdd_units.json',
+                'src/TotalDepth/LIS/core/Units.py', 'src/TotalDepth/LIS/core/EngVal.py']
 
 CHUNK = 64          # rows per generated Lean list literal
 
@@ -358,7 +361,10 @@ def canon(kind, val):
 
 
 def canon_model(reply: str) -> str:
-    return 'err units' if reply.startswith('err ExceptionUnits') else reply
+    if reply.startswith('err ExceptionUnits'):
+        parts = reply.split(' ', 2)
+        return 'err units' + (' ' + parts[2] if len(parts) > 2 else '')
+    return reply
 
 
 def is_num(x):
@@ -611,25 +617,45 @@ def run_osdd(ctx, boost=False):
         v = rng.choice(SPECIALS) if k % 3 else gen_values(rng, 1)[0]
         case = {'op': 'osdd_refuse', 'from': a.key, 'to': b.key, 'v': v.hex()}
         ctx.count('oracle_cases')
-        r1 = osdd_call(U, U.convert, v, a.unit, b.unit)
-        r2 = osdd_call(U, U.convert_function, a.unit, b.unit)
-        if r1[0] != 'units' or r2[0] != 'units':
-            ctx.fail(case, f'units of dimensions {a.unit.dimension!r} / {b.unit.dimension!r}: convert -> {r1[0]} {r1[1]!r}, '
-                           f'convert_function -> {r2[0]} {str(r2[1])[:60]}; expected a subclass of ExceptionUnits')
+        bad, r1, r2, r3, r4, after = check_refusal(U, np, v, a, b)
+        if bad:
+            ctx.fail(case, bad)
         else:
             ctx.nontriv(('osdd_refuse', a.unit.dimension, b.unit.dimension))
         if k < len(refuse) or (k - len(refuse)) in sampled:
             lines.append(f'oconv {a.idx} {b.idx} {fbits(v)}'); meta.append(('osdd_refuse', case, canon(*r1)))
             lines.append(f'ofun {a.idx} {b.idx} {fbits(v)}'); meta.append(('osdd_refuse_function', case, canon(r2[0], r2[1]) if r2[0] != 'ok' else 'ok function'))
+            arr = f'{fbits(v)},{fbits(1.0)}'
+            lines.append(f'oarr {a.idx} {b.idx} {arr}'); meta.append(('osdd_refuse_array_copy', case, canon(r3[0], r3[1]) if r3[0] != 'ok' else 'ok array'))
+            lines.append(f'oinp {a.idx} {b.idx} {arr}')
+            meta.append(('osdd_refuse_array_inplace', case, (canon(r4[0], r4[1]) if r4[0] != 'ok' else 'ok array') + ' after ' + after))
     rep = lean(lines)
     for (stream, case, impl), m in zip(meta, rep):
         corr(stream, case, impl, m)
-    # informational: the array forms perform no dimension check (DESIGN: refusal clause read as applying to the checked entry points)
-    a, b = refuse[0]
-    r = osdd_call(U, U.convert_array, np.array([1.0]), a.unit, b.unit)
-    ctx.note(f'informational: convert_array / convert_array_inplace perform no dimension check (e.g. {a.key!r} [{a.unit.dimension}] -> '
-             f'{b.key!r} [{b.unit.dimension}] gives {r[0]}); the refusal clause is checked on convert and convert_function')
     return len(ctx.failures) - n_fail_before
+
+
+def check_refusal(U, np, v, a, b):
+    """Two units of different dimension: every entry point (scalar, function, copying array, in-place array) must raise a
+    subclass of ExceptionUnits, and the in-place form must leave the array as it was.
+    Returns (failure text or None, the four outcomes, canonical array content after the in-place call)."""
+    r1 = osdd_call(U, U.convert, v, a.unit, b.unit)
+    r2 = osdd_call(U, U.convert_function, a.unit, b.unit)
+    src = np.array([v, 1.0], dtype=np.float64)
+    with np.errstate(all='ignore'):
+        r3 = osdd_call(U, U.convert_array, src, a.unit, b.unit)
+        work = src.copy()
+        r4 = osdd_call(U, U.convert_array_inplace, work, a.unit, b.unit)
+    after = ','.join(str(fbits(float(x))) for x in work)
+    untouched = after == ','.join(str(fbits(float(x))) for x in src)
+    bad = None
+    short = lambda r: f'{r[0]} {str(r[1])[:40]}'
+    if any(r[0] != 'units' for r in (r1, r2, r3, r4)):
+        bad = (f'units of dimensions {a.unit.dimension!r} / {b.unit.dimension!r}: convert -> {short(r1)}, convert_function -> {short(r2)}, '
+               f'convert_array -> {short(r3)}, convert_array_inplace -> {short(r4)}; expected a subclass of ExceptionUnits from each')
+    elif not untouched:
+        bad = 'convert_array_inplace refused the conversion but had already modified the array'
+    return bad, r1, r2, r3, r4, after
 
 
 def check_composite(U, v, a, b, c, w):
@@ -686,11 +712,12 @@ def check_arrays(U, np, a, b, vals, scalar_results, src, keep, scalar_ok=None):
     work = keep.copy()
     with np.errstate(all='ignore'):
         ri = osdd_call(U, U.convert_array_inplace, work, a.unit, b.unit)
+    after = ','.join(str(fbits(float(x))) for x in work) or '-'
     if ri[0] != 'ok':
         bad = bad or f'convert_array_inplace raised {ri[1]}'
-        canon_inp = canon(*ri)
+        canon_inp = canon(*ri) + ' after ' + after
     else:
-        canon_inp = 'ok ' + ','.join(str(fbits(float(x))) for x in work)
+        canon_inp = f'ok {after} after {after}'
         if ri[1] is not None and not bad:
             bad = f'convert_array_inplace returned {type(ri[1]).__name__}, documented None'
     if bad:
@@ -1053,8 +1080,8 @@ def replay(ctx, rec):
             v = fx(case['v']); a, b = g('from'), g('to')
             if a.unit.dimension == b.unit.dimension:
                 return True, 'the two units now have one dimension'
-            r1 = osdd_call(U, U.convert, v, a.unit, b.unit); r2 = osdd_call(U, U.convert_function, a.unit, b.unit)
-            return r1[0] == 'units' and r2[0] == 'units', f'convert -> {r1[0]} {r1[1]!r}; convert_function -> {r2[0]}'
+            bad, r1, r2, r3, r4, _ = check_refusal(U, np, v, a, b)
+            return bad is None, bad or f'convert, convert_function, convert_array, convert_array_inplace -> {r1[0]} {r1[1]!r}, array untouched'
     if op.startswith('lis') or op == 'engval':
         L, lus = load_lis()
         from TotalDepth.LIS.core import EngVal as EV
